@@ -25,6 +25,13 @@ Theorem c09_source_tables :
 Proof. exact Gen_stanza_ok. Qed.
 Print Assumptions c09_source_tables.
 
+(* xmpp_stanza_to_text renders its argument as the top of the output (context NoParent in the theorems below),
+   also when the argument is a child of another stanza: its own xmlns is not dropped against a parent that is
+   not part of the output *)
+Theorem to_text_renders_argument_as_top : render_root_is_top = true.
+Proof. exact render_root_top_ok. Qed.
+Print Assumptions to_text_renders_argument_as_top.
+
 (* for every byte string: the escaped form contains no < > or double quote, every & in it starts one of
    the four entities, and un-escaping gives the original back (the apostrophe is not escaped: attribute
    values are always written between double quotes) *)
@@ -51,3 +58,126 @@ Theorem to_text_is_full_render :
       zlen rest = Z.max stanza_init_buf (zlen (render c t) + 1) - (zlen (render c t) + 1).
 Proof. exact to_text_correct. Qed.
 Print Assumptions to_text_is_full_render.
+
+(* the same, as the caller sees it: the C string in the returned allocation *)
+Theorem to_text_returns_the_string :
+  forall c t buf len, renderable t -> zlen (render c t) < 2147483648 -> nul_free (render c t) ->
+    to_text c t = TOk buf len -> cstring buf = Some (render c t) /\ len = zlen (render c t).
+Proof. exact to_text_cstring. Qed.
+Print Assumptions to_text_returns_the_string.
+
+(* each bounded rendering step is the C library's snprintf of the ideal rendering: at most buflen-1 bytes and
+   a terminator inside [ptr, ptr+buflen), the full length returned - for every buffer position and size *)
+Theorem render_bounded_is_snprintf :
+  forall t c buf ptr buflen, renderable t -> bnd buf ptr buflen ->
+    render_rec c t buf ptr buflen = snprintf buf ptr buflen (render c t).
+Proof. exact render_rec_is_snprintf. Qed.
+Print Assumptions render_bounded_is_snprintf.
+
+(* attribute tables built by the API (hash_new / hash_add / hash_drop) stay well formed, and lookups behave
+   like a finite map; this is what makes `renderable`, `tree_wf`, `rt_wf` true of API-built trees *)
+Theorem attr_table_is_a_map :
+  forall a k v, attrs_ok a ->
+    attrs_ok (attr_set a k v) /\ attrs_ok (fst (attr_del a k)) /\
+    (forall k', attr_get (attr_set a k v) k' = if beq k' k then Some v else attr_get a k') /\
+    (forall k', attr_get (fst (attr_del a k)) k' = if beq k' k then None else attr_get a k') /\
+    match a with
+    | Some h => NoDup (hash_keys h) /\ forall k', In k' (hash_keys h) <-> exists v', hash_get h k' = Some v'
+    | None => True
+    end.
+Proof. exact attr_table_map_proof. Qed.
+Print Assumptions attr_table_is_a_map.
+
+(* the hard one: for every tree (any depth, fan-out, sizes; element and attribute names non-empty runs of name
+   bytes; text and attribute values ARBITRARY byte strings) the reference parser reads the rendering back as
+   exactly the document the tree stands for: same names, effective namespaces, attributes, child order, text
+   (adjacent text merged, empty text dropped).  In particular no text or attribute value can introduce, close
+   or alter an element or attribute. *)
+Theorem render_parse_roundtrip :
+  forall name a cs, rt_wf (Tag name a cs) ->
+    spec_parse rfc_ns_client (render NoParent (Tag name a cs)) = Some (canon rfc_ns_client (Tag name a cs)).
+Proof. exact render_parse_roundtrip_proof. Qed.
+Print Assumptions render_parse_roundtrip.
+
+(* in any context: an element below a parent, with any tail after it *)
+Theorem render_parse_roundtrip_in_context :
+  forall name a cs c dns rest fuel, rt_wf (Tag name a cs) -> ctx_ok c dns ->
+    (length (render c (Tag name a cs)) <= fuel)%nat ->
+    p_elem fuel dns (render c (Tag name a cs) ++ rest) = Some (canon dns (Tag name a cs), rest).
+Proof. exact roundtrip_in_context_proof. Qed.
+Print Assumptions render_parse_roundtrip_in_context.
+
+(* both together: xmpp_stanza_to_text's string, parsed *)
+Theorem to_text_parse_roundtrip :
+  forall name a cs,
+    rt_wf (Tag name a cs) -> renderable (Tag name a cs) ->
+    nul_free (render NoParent (Tag name a cs)) -> zlen (render NoParent (Tag name a cs)) < 2147483648 ->
+    exists buf len s,
+      to_text NoParent (Tag name a cs) = TOk buf len /\ cstring buf = Some s /\ len = zlen s /\
+      spec_parse rfc_ns_client s = Some (canon rfc_ns_client (Tag name a cs)).
+Proof. exact to_text_parse_roundtrip_proof. Qed.
+Print Assumptions to_text_parse_roundtrip.
+
+(* xmpp_stanza_copy never fails on a well-formed tree and gives an equal tree: same node types, names, text,
+   child order at every depth, the same attribute set at every element (the enumeration order of a chain is
+   reversed by re-insertion, which is why equality is stated on lookups) *)
+Theorem copy_deep_and_equal :
+  forall t, tree_wf t -> exists t', copy_tree t = Some t' /\ tree_equiv t t' /\ tree_wf t'.
+Proof. exact copy_tree_spec. Qed.
+Print Assumptions copy_deep_and_equal.
+
+(* xmpp_stanza_reply: NULL exactly when there is no `from`; otherwise the same element name, no children,
+   to := the sender, no from, no xmlns, every other attribute (id, type, ...) kept *)
+Theorem reply_addresses_sender :
+  forall name a cs, attrs_ok a ->
+    match attr_get a k_from with
+    | None => stanza_reply (Tag name a cs) = None
+    | Some from =>
+        exists a', stanza_reply (Tag name a cs) = Some (Tag name a' []) /\ attrs_ok a' /\
+          attr_get a' k_to = Some from /\ attr_get a' k_from = None /\ attr_get a' xmlns_key = None /\
+          forall k, k <> k_to -> k <> k_from -> k <> xmlns_key -> attr_get a' k = attr_get a k
+    end.
+Proof. exact stanza_reply_spec. Qed.
+Print Assumptions reply_addresses_sender.
+
+Theorem reply_of_non_element_is_null :
+  stanza_reply Unk = None /\ forall s, stanza_reply (Text s) = None.
+Proof. exact stanza_reply_not_tag. Qed.
+Print Assumptions reply_of_non_element_is_null.
+
+(* xmpp_stanza_reply_error: RFC 6120 8.3 *)
+Theorem reply_error_rfc6120_structure :
+  forall name a cs ty cond text, attrs_ok a ->
+    match attr_get a k_from with
+    | None => stanza_reply_error (Tag name a cs) ty cond text = None
+    | Some from =>
+        exists a' ea ca ta,
+          stanza_reply_error (Tag name a cs) ty cond text =
+            Some (Tag name a'
+                    [Tag s_error ea
+                       (Tag cond ca [] ::
+                        match text with Some x => [Tag s_text ta [Text x]] | None => [] end)]) /\
+          attrs_ok a' /\
+          attr_get a' k_type = Some s_error /\
+          attr_get a' k_to = Some from /\
+          attr_get a' k_from = attr_get a k_to /\
+          attr_get a' xmlns_key = None /\
+          (forall k, k <> k_to -> k <> k_from -> k <> xmlns_key -> k <> k_type -> attr_get a' k = attr_get a k) /\
+          only_attr ea k_type ty /\ only_attr ca xmlns_key rfc_ns_stanzas /\ only_attr ta xmlns_key rfc_ns_stanzas
+    end.
+Proof. exact stanza_reply_error_spec. Qed.
+Print Assumptions reply_error_rfc6120_structure.
+
+(* xmpp_error_new: RFC 6120 4.9 *)
+Theorem error_new_rfc6120_structure :
+  forall ty text,
+    exists ca ta,
+      error_new ty text =
+        Tag s_stream_error None
+          (Tag (if (0 <=? ty) && (ty <? zlen rfc_stream_conditions)
+                then nth (Z.to_nat ty) rfc_stream_conditions stream_error_default else stream_error_default) ca [] ::
+           match text with Some x => [Tag s_text ta [Text x]] | None => [] end) /\
+      only_attr ca xmlns_key rfc_ns_streams /\ only_attr ta xmlns_key rfc_ns_streams /\
+      In stream_error_default rfc_stream_conditions.
+Proof. exact error_new_spec. Qed.
+Print Assumptions error_new_rfc6120_structure.
